@@ -29,7 +29,7 @@ MODELS = {
                  ('Ddmin', 'MC_Ddmin_par.cfg', 900, SEQ),
                  ('Ddmin', 'MC_Ddmin_par3.cfg', 3000, SEQ)],
 }
-NRUNS = {'quick': 40, 'thorough': 600}
+NRUNS = {'quick': 40, 'thorough': 240}
 
 
 def make_configs(r, n):
@@ -135,7 +135,7 @@ def sched_configs(r, tier):
     hierarchical input."""
     import itertools
     out = []
-    plans = [(2, 3), (3, 2)] if tier == 'quick' else [(2, 9), (3, 6), (4, 4)]
+    plans = [(2, 3), (3, 2)] if tier == 'quick' else [(2, 6), (3, 4), (4, 3)]
     for jobs, depth in plans:
         for strat in ('ddmin', 'hierarchical'):
             na = 9
